@@ -345,6 +345,7 @@ func CheckUserInput(conf Root) error {
 	var checkInputs func([]dig.Input)
 	checkInputs = func(inputs []dig.Input) {
 		for _, inp := range inputs {
+			check("input column name", inp.Column)
 			checkRef(inp.Filter.Ref)
 			checkInputs(inp.Components)
 		}
@@ -371,6 +372,7 @@ func CheckUserInput(conf Root) error {
 		}
 		checkInputs(ig.Event.Inputs)
 		for _, bd := range ig.Block {
+			check("block data column name", bd.Column)
 			checkRef(bd.Filter.Ref)
 		}
 	}
